@@ -160,11 +160,55 @@ func (w *World) Image() []FileSpec {
 	return out
 }
 
+// resolve turns a name into a canonical absolute path the way the kernel
+// walks it: "." and ".." are interpreted against directories that must exist
+// (no lexical cleaning: "missing/../a" is ENOENT, "file/../a" is ENOTDIR).
+// When the walk fails at an intermediate component, the returned path lies
+// beneath that component, so that lookup reports the same errno.
 func (w *World) resolve(name string) string {
-	if !filepath.IsAbs(name) {
-		name = filepath.Join(w.Cwd, name)
+	if name == "" {
+		return "/\x00empty-path" // ENOENT
 	}
-	return filepath.Clean(name)
+	cur := "/"
+	rest := name
+	if !filepath.IsAbs(name) {
+		cur = filepath.Clean(w.Cwd)
+	}
+	parts := strings.Split(rest, "/")
+	for i, c := range parts {
+		if c == "" || c == "." {
+			continue
+		}
+		n, ok := w.fs[cur]
+		if !ok || !n.dir {
+			// fails here: keep the remaining components beneath cur
+			tailParts := []string{}
+			for _, t := range parts[i:] {
+				if t != "" && t != "." && t != ".." {
+					tailParts = append(tailParts, t)
+				}
+			}
+			if len(tailParts) == 0 {
+				tailParts = []string{"x"}
+			}
+			return cur + "/" + strings.Join(tailParts, "/")
+		}
+		if c == ".." {
+			cur = filepath.Dir(cur)
+			continue
+		}
+		if cur == "/" {
+			cur = "/" + c
+		} else {
+			cur = cur + "/" + c
+		}
+	}
+	if strings.HasSuffix(name, "/") && cur != "/" {
+		if n, ok := w.fs[cur]; ok && !n.dir {
+			return cur + "/." // a trailing slash demands a directory: ENOTDIR
+		}
+	}
+	return cur
 }
 
 // lookup walks the path like the kernel would.
@@ -626,16 +670,10 @@ func (w *World) rename(oldname, newname string) error {
 		} else if !parent.dir {
 			e = syscall.ENOTDIR
 		} else if t, e3 := w.lookup(q); e3 == 0 {
-			if t.dir && !n.dir {
-				e = syscall.EISDIR
+			if t.dir {
+				e = syscall.EEXIST // Go's os.Rename refuses every rename onto an existing directory
 			} else if !t.dir && n.dir {
 				e = syscall.ENOTDIR
-			} else if t.dir {
-				for _, k := range w.sortedPaths() {
-					if strings.HasPrefix(k, q+"/") {
-						e = syscall.ENOTEMPTY
-					}
-				}
 			}
 		}
 	}
@@ -681,50 +719,72 @@ func (w *World) remove(name string, all bool) error {
 }
 
 func (w *World) mkdir(name string, all bool) error {
-	p, ev, err := w.simple(OpMkdir, name)
+	_, ev, err := w.simple(OpMkdir, name)
 	defer w.log(ev)
 	if err != nil {
 		return err
 	}
-	if n, e := w.lookup(p); e == 0 {
-		if all && n.dir {
-			ev.Res = "ok"
-			return nil
-		}
-		ev.Res = "EEXIST"
-		if all {
-			ev.Res = KENOTDIR
-			return pathErr("mkdir", name, syscall.ENOTDIR)
-		}
-		return pathErr("mkdir", name, syscall.EEXIST)
-	}
+	var e syscall.Errno
 	if all {
-		// every existing ancestor must be a directory
-		d := p
-		for d != "/" {
-			d = filepath.Dir(d)
-			if n, ok := w.fs[d]; ok {
-				if !n.dir {
-					ev.Res = KENOTDIR
-					return pathErr("mkdir", name, syscall.ENOTDIR)
-				}
-				break
-			}
-		}
-		w.put(p, true, nil)
-		ev.Res = "ok"
-		return nil
-	}
-	parent, e := w.lookup(filepath.Dir(p))
-	if e == 0 && !parent.dir {
-		e = syscall.ENOTDIR
+		e = w.mkdirAllRaw(name)
+	} else {
+		e = w.mkdirRaw(name)
 	}
 	ev.Res = errnoName(e)
 	if e != 0 {
 		return pathErr("mkdir", name, e)
 	}
-	w.fs[p] = &node{dir: true, mode: fs.ModeDir | 0o755}
 	return nil
+}
+
+// mkdirRaw is mkdir(2) on the kernel-walked path.
+func (w *World) mkdirRaw(name string) syscall.Errno {
+	p := w.resolve(name)
+	if _, e := w.lookup(p); e == 0 {
+		return syscall.EEXIST
+	} else if e != syscall.ENOENT {
+		return e
+	}
+	parent, e := w.lookup(filepath.Dir(p))
+	if e != 0 {
+		return e
+	}
+	if !parent.dir {
+		return syscall.ENOTDIR
+	}
+	w.fs[p] = &node{dir: true, mode: fs.ModeDir | 0o755}
+	return 0
+}
+
+// mkdirAllRaw follows the algorithm of os.MkdirAll (textual parents).
+func (w *World) mkdirAllRaw(name string) syscall.Errno {
+	if n, e := w.lookup(w.resolve(name)); e == 0 {
+		if n.dir {
+			return 0
+		}
+		return syscall.ENOTDIR
+	}
+	i := len(name)
+	for i > 0 && name[i-1] == '/' {
+		i--
+	}
+	j := i
+	for j > 0 && name[j-1] != '/' {
+		j--
+	}
+	if j > 1 {
+		if e := w.mkdirAllRaw(name[:j-1]); e != 0 {
+			return e
+		}
+	}
+	e := w.mkdirRaw(name)
+	if e != 0 {
+		if n, e2 := w.lookup(w.resolve(name)); e2 == 0 && n.dir {
+			return 0
+		}
+		return e
+	}
+	return 0
 }
 
 type dirEntry struct{ fi fileInfo }
